@@ -320,53 +320,7 @@ def extract_fn(relpath, qual, ann):
         if occ >= len(hits):
             raise Inconclusive(f"anchor lost: let {name}#{occ} of {qual}")
         ed.add(hits[occ]["span"][1], hits[occ]["span"][1], "\n" + ptext.rstrip() + "\n", "A1")
-    # D2: `X.into_iter()/.iter().map(|p| { BODY; Ok(p) | EXPR }).collect[::<..>]()[?]` -> index loop over X with BODY copied by span
-    for k, inv in (ann.get("maploops") or {}).items():
-        elem_ty = None
-        if " " in str(k).strip():
-            k, elem_ty = str(k).split(None, 1)
-        k = int(k)
-        if k >= len(it["closures"]):
-            raise Inconclusive(f"anchor lost: closure #{k} of {qual} (maploop)")
-        c = it["closures"][k]
-        mp = [m for m in it["mcalls"] if m["name"] == "map" and len(m["args"]) == 1 and m["args"][0] == c["span"]]
-        if len(mp) != 1 or len(c["params"]) != 1 or not c["body_is_block"] or not c["body_stmts"]:
-            raise Inconclusive(f"D2: closure #{k} of {qual} is not the argument of a .map(|p| {{..}}) call")
-        mp = mp[0]
-        itc = [m for m in it["mcalls"] if m["name"] in ("into_iter", "iter") and m["span"][1] == mp["recv_end"]]
-        col = [m for m in it["mcalls"] if m["name"] == "collect" and m["recv_end"] == mp["span"][1]]
-        if len(itc) != 1 or len(col) != 1:
-            raise Inconclusive(f"D2: .map of closure #{k} in {qual} is not of the shape X.iter()/into_iter().map(..).collect()")
-        itc, col = itc[0], col[0]
-        chain_start, chain_end = itc["span"][0], col["span"][1]
-        tries = [t for t in it.get("tries", []) if t[0] == chain_start and t[1] == chain_end + 1]
-        if tries:
-            chain_end += 1
-        xsrc = src[chain_start:itc["recv_end"]].decode()
-        ptxt = src[c["params"][0]["span"][0]:c["params"][0]["span"][1]].decode()
-        bind = (f"let {ptxt} = verif_src[verif_i].clone();" if itc["name"] == "into_iter"
-                else f"let {ptxt} = &verif_src[verif_i];")
-        bs0, bs1 = c["body"]
-        head = ("{ let verif_src = " + xsrc + "; let mut verif_out" + (f": Vec<{elem_ty}>" if elem_ty else "") + " = Vec::new(); let mut verif_i: usize = 0;\n"
-                "while verif_i < verif_src.len()\n" + inv.rstrip() + "\n    decreases verif_src.len() - verif_i\n{ " + bind + "\n")
-        ed.add(chain_start, bs0 + 1, head, "D2", f"map/collect chain over `{xsrc.strip()[:40]}` desugared to an index loop (closure body copied by span)")
-        tail = c["body_stmts"][-1]
-        ts, te = tail["span"]
-        ttxt = src[ts:te].decode()
-        if tail["kind"] != "expr":
-            raise Inconclusive(f"D2: closure #{k} of {qual} has no tail expression")
-        if re.match(r"^Ok\s*\(", ttxt) and ttxt.rstrip().endswith(")"):
-            okp = ts + ttxt.index("(") + 1
-            ed.add(ts, okp, "verif_out.push(", "D2", "closure result `Ok(x)` becomes `push(x)`")
-            ed.add(te - 1, te, "); verif_i = verif_i + 1;", None)
-        else:
-            ed.add(ts, ts, "verif_out.push(", "D2", "closure result becomes `push(..)`")
-            ed.add(te, te, "); verif_i = verif_i + 1;", None)
-        result_block = (not tries) and bool(re.match(r"^Ok\s*\(", ttxt))
-        if result_block:
-            ed.log.append({"file": relpath, "line": _srcline(src, chain_start), "rule": "D2",
-                           "note": "collect into Result without `?`: an Err inside the closure now returns from the function immediately (the original returns it at the later `?` on the collected value)"})
-        ed.add(bs1, chain_end, " Ok(verif_out) }" if result_block else " verif_out }", None)
+    apply_maploops(ed, it, it["closures"], src, ann, qual, relpath)
     apply_forloops(ed, it["loops"], src, ann, qual)
     # R6 response attributes
     if ann.get("drop_response_attrs", True):
@@ -430,6 +384,56 @@ def extract_fn(relpath, qual, ann):
                        "note": f"method of `impl {parent['trait']} for {parent['self_ty']}` emitted as inherent method"})
     text, lm = wrap_parent(text, parent, lm, ann.get("inherent"))
     return text, lm, src, ed.log, labels, it
+
+
+def apply_maploops(ed, it, closures, src, ann, qual, relpath):
+    # D2: `X.into_iter()/.iter().map(|p| { BODY; Ok(p) | EXPR }).collect[::<..>]()[?]` -> index loop over X with BODY copied by span
+    for k, inv in (ann.get("maploops") or {}).items():
+        elem_ty = None
+        if " " in str(k).strip():
+            k, elem_ty = str(k).split(None, 1)
+        k = int(k)
+        if k >= len(closures):
+            raise Inconclusive(f"anchor lost: closure #{k} of {qual} (maploop)")
+        c = closures[k]
+        mp = [m for m in it["mcalls"] if m["name"] == "map" and len(m["args"]) == 1 and m["args"][0] == c["span"]]
+        if len(mp) != 1 or len(c["params"]) != 1 or not c["body_is_block"] or not c["body_stmts"]:
+            raise Inconclusive(f"D2: closure #{k} of {qual} is not the argument of a .map(|p| {{..}}) call")
+        mp = mp[0]
+        itc = [m for m in it["mcalls"] if m["name"] in ("into_iter", "iter") and m["span"][1] == mp["recv_end"]]
+        col = [m for m in it["mcalls"] if m["name"] == "collect" and m["recv_end"] == mp["span"][1]]
+        if len(itc) != 1 or len(col) != 1:
+            raise Inconclusive(f"D2: .map of closure #{k} in {qual} is not of the shape X.iter()/into_iter().map(..).collect()")
+        itc, col = itc[0], col[0]
+        chain_start, chain_end = itc["span"][0], col["span"][1]
+        tries = [t for t in it.get("tries", []) if t[0] == chain_start and t[1] == chain_end + 1]
+        if tries:
+            chain_end += 1
+        xsrc = src[chain_start:itc["recv_end"]].decode()
+        ptxt = src[c["params"][0]["span"][0]:c["params"][0]["span"][1]].decode()
+        bind = (f"let {ptxt} = verif_src[verif_i].clone();" if itc["name"] == "into_iter"
+                else f"let {ptxt} = &verif_src[verif_i];")
+        bs0, bs1 = c["body"]
+        head = ("{ let verif_src = " + xsrc + "; let mut verif_out" + (f": Vec<{elem_ty}>" if elem_ty else "") + " = Vec::new(); let mut verif_i: usize = 0;\n"
+                "while verif_i < verif_src.len()\n" + inv.rstrip() + "\n    decreases verif_src.len() - verif_i\n{ " + bind + "\n")
+        ed.add(chain_start, bs0 + 1, head, "D2", f"map/collect chain over `{xsrc.strip()[:40]}` desugared to an index loop (closure body copied by span)")
+        tail = c["body_stmts"][-1]
+        ts, te = tail["span"]
+        ttxt = src[ts:te].decode()
+        if tail["kind"] != "expr":
+            raise Inconclusive(f"D2: closure #{k} of {qual} has no tail expression")
+        if re.match(r"^Ok\s*\(", ttxt) and ttxt.rstrip().endswith(")"):
+            okp = ts + ttxt.index("(") + 1
+            ed.add(ts, okp, "verif_out.push(", "D2", "closure result `Ok(x)` becomes `push(x)`")
+            ed.add(te - 1, te, "); verif_i = verif_i + 1;", None)
+        else:
+            ed.add(ts, ts, "verif_out.push(", "D2", "closure result becomes `push(..)`")
+            ed.add(te, te, "); verif_i = verif_i + 1;", None)
+        result_block = (not tries) and bool(re.match(r"^Ok\s*\(", ttxt))
+        if result_block:
+            ed.log.append({"file": relpath, "line": _srcline(src, chain_start), "rule": "D2",
+                           "note": "collect into Result without `?`: an Err inside the closure now returns from the function immediately (the original returns it at the later `?` on the collected value)"})
+        ed.add(bs1, chain_end, " Ok(verif_out) }" if result_block else " verif_out }", None)
 
 
 def apply_forloops(ed, loops, src, ann, qual):
@@ -556,6 +560,7 @@ def extract_segment(relpath, qual, ann):
         k = int(k)
         if k >= len(seg_loops): raise Inconclusive(f"anchor lost: loop #{k} of segment of {qual}")
         ed.add(seg_loops[k]["body"][1] - 1, seg_loops[k]["body"][1] - 1, "\n" + ptext.rstrip() + "\n", "A1")
+    apply_maploops(ed, it, seg_closures, src, ann, qual, relpath)
     apply_forloops(ed, seg_loops, src, ann, qual)
     if ann.get("tail") and k1 == len(st):
         ed.add(st[-1]["span"][0], st[-1]["span"][0], ann["tail"].rstrip() + "\n", "A1")
